@@ -800,6 +800,11 @@ class Runner(object):
                     rawkey = rawmap(*ra, **rk)
                     if not isinstance(rawkey, tuple):
                         return ['stringmap-str-of-bare-scalar']
+                    # ... or the *current* call is the one whose lone argument was unwrapped (f('()') meets f())
+                    cur = self.case['ops'][self.step_i]
+                    ca, ck = _keygen(self.probe.fn, ign, *dec(cur[1]), **dec(cur[2]))
+                    if not isinstance(rawmap(*ca, **ck), tuple):
+                        return ['stringmap-str-of-bare-scalar']
                 return ['keymap-collision-unclassified']
         except Exception:
             pass
@@ -1058,7 +1063,13 @@ def gen_case(rng, focus, nops=None):
         # keys are None, 0, '', (), False ...: values that internal markers and truth tests are easily confused with
         sig = '*args'
         km = {'cls': 'keymap', 'type': None, 'flat': True, 'typed': False, 'sentinel': False}
-        kk = 'raw'
+        if rng.random() < 0.6:
+            # ... or the encoded form of that lone argument (its digest, its pickle, its text), which has to keep 1, '1',
+            # None and 'None' apart just the same
+            # (the unwrapped-scalar collision of stringmap(encoding=None) is a recorded finding, listed for C01 only)
+            km = rng.choice([k for k in kms if k['flat'] and not k['typed'] and not k['sentinel'] and not k.get('outer')
+                             and not (k['cls'] == 'stringmap' and k['type'] is None and focus != 'C01')])
+        kk = gen.key_kind(km)
         if not gen.backend_accepts(b, kk, km):
             b = {'kind': 'dict_archive'}
     algo = rng.choice(ALGOS if focus not in ('C06',) else list(BOUNDED))
@@ -1096,7 +1107,11 @@ def gen_case(rng, focus, nops=None):
         cfg['maxsize'] = 0 if algo == 'no' else None
     universe = list(gen.UNIVERSE)
     if bare:
-        universe = [None, 0, '', (), 1, 'a', 2, 'b', 3, 2.5, -1, 'x']
+        universe = [None, 0, '', (), 1, 'a', 2, 'b', 3, 2.5, -1, 'x', '1', 'None', '0', '()', '2.5']
+        if b['kind'] == 'dir':
+            # (a directory archive names the entries of None and 'None', 1 and '1' alike - the recorded aliasing finding,
+            # which the ordinary universes exercise; not here)
+            universe = universe[:12]
     if rng.random() < 0.3 and not bare:
         # text that is canonically equivalent (NFC == NFC) but not equal: different arguments
         universe += [u'caf\u00e9', u'cafe\u0301']
